@@ -451,6 +451,81 @@ def py_array(a):
     return [e["v"] if e["t"] == "n" else list(e["l"]) for e in a]
 
 
+def ref_w(arr, mode):
+    """the W / W2 grammar of ISO 32000-1 9.7.4.3 on a well-formed Python array, last group wins - in the shape of the
+    replay's expectation ({cid: w} / {cid: (w1y, (vx, vy))})"""
+    ar, rl = (1, 3) if mode == "W" else (3, 5)
+    out = {}
+    i = 0
+    while i < len(arr):
+        if i + 1 < len(arr) and isinstance(arr[i + 1], list):
+            c, l = arr[i], arr[i + 1]
+            for k in range(len(l) // ar):
+                out[c + k] = tuple(l[k * ar:(k + 1) * ar])
+            i += 2
+        else:
+            v = tuple(arr[i + 2:i + rl])
+            for c in range(arr[i], arr[i + 1] + 1):
+                out[c] = v
+            i += rl
+    return {c: v[0] for c, v in out.items()} if mode == "W" else {c: (v[0], (v[1], v[2])) for c, v in out.items()}
+
+
+def realify(arr, mode):
+    """the same array with every width / vector component moved by 0.5 (CIDs stay integers)"""
+    rl = 3 if mode == "W" else 5
+    out = []
+    i = 0
+    while i < len(arr):
+        if i + 1 < len(arr) and isinstance(arr[i + 1], list):
+            out += [arr[i], [x + 0.5 for x in arr[i + 1]]]
+            i += 2
+        else:
+            out += arr[i:i + 2] + [x + 0.5 for x in arr[i + 2:i + rl]]
+            i += rl
+    return out
+
+
+def widths_doc(arr, exp, mode, dflt):
+    """an Identity-H / Identity-V font with this W / W2 array and DW / DW2 showing CIDs 0..7: advance, pen position, box x0"""
+    from ..realise import fontpdf as fp
+    f = []
+    cids = list(range(8))
+    data = [b"".join(c.to_bytes(2, "big") for c in cids)]
+    try:
+        if mode == "W":
+            font, objs = type0_font("Identity-H", w=arr, dw=dflt)
+            got = fp.chars_of(lines_doc(font, objs, data))[0]
+            x = 100.0
+            for c, g in zip(cids, got):
+                adv = exp.get(c, 1000 if dflt is None else dflt) * 0.001 * FS
+                if not (close(g[1], adv) and close(g[2][4], x) and g[2][5] == 100000):
+                    f.append(("widths-document:W", "W %r DW %r: CID %d adv %r at x %r, expected adv %r at x %r"
+                              % (arr, dflt, c, g[1], g[2][4], adv, x), {}))
+                    break
+                x += adv
+        else:
+            font, objs = type0_font("Identity-V", w2=arr, dw2=dflt)
+            got = fp.chars_of(lines_doc(font, objs, data))[0]
+            y = 100000.0
+            for c, g in zip(cids, got):
+                w1 = exp[c][0] if c in exp else (-1000 if dflt is None else dflt[1])
+                adv = w1 * 0.001 * FS
+                if not (close(g[1], adv) and close(g[2][5], y) and g[2][4] == 100):
+                    f.append(("widths-document:W2", "W2 %r DW2 %r: CID %d adv %r at y %r, expected adv %r at y %r"
+                              % (arr, dflt, c, g[1], g[2][5], adv, y), {}))
+                    break
+                # position vector: observed through the glyph box (x0 = origin - vx * fs / 1000)
+                if c in exp and not close(g[3][0], 100 - exp[c][1][0] * 0.001 * FS):
+                    f.append(("widths-document:W2-vx", "W2 %r: CID %d box x0 %r, expected %r" % (
+                        arr, c, g[3][0], 100 - exp[c][1][0] * 0.001 * FS), {}))
+                    break
+                y += adv
+    except Exception as e:  # noqa: BLE001
+        f.append(("widths-document:%s" % type(e).__name__, "%s %r default %r: document raised %r" % (mode, arr, dflt, e), {}))
+    return f
+
+
 def widths_worker(batch):
     from pdfminer.pdffont import get_widths, get_widths2
     from ..realise import fontpdf as fp
@@ -474,41 +549,26 @@ def widths_worker(batch):
                 f.append(("widths-table:%s" % r["mode"], "%s array %r: table %r, expected %r" % (r["mode"], arr, real, exp), {}))
             else:
                 drift = 1          # outside the grammar of the standard nothing is demanded
-        if with_doc and r["wf"]:
-            if r["mode"] == "W":
-                dw = 500 if (len(arr) % 2) else None
-                font, objs = type0_font("Identity-H", w=arr, dw=dw)
-                cids = list(range(8))
-                pdf = lines_doc(font, objs, [b"".join(c.to_bytes(2, "big") for c in cids)])
-                got = fp.chars_of(pdf)[0]
-                x = 100.0
-                for c, g in zip(cids, got):
-                    adv = exp.get(c, 1000 if dw is None else dw) * 0.001 * FS
-                    if not (close(g[1], adv) and close(g[2][4], x) and g[2][5] == 100000):
-                        f.append(("widths-document:W", "W %r DW %r: CID %d adv %r at x %r, expected adv %r at x %r"
-                                  % (arr, dw, c, g[1], g[2][4], adv, x), {}))
-                        break
-                    x += adv
-            else:
-                dw2 = [800, -900] if (len(arr) % 2) else None
-                font, objs = type0_font("Identity-V", w2=arr, dw2=dw2)
-                cids = list(range(8))
-                pdf = lines_doc(font, objs, [b"".join(c.to_bytes(2, "big") for c in cids)])
-                got = fp.chars_of(pdf)[0]
-                y = 100000.0
-                for c, g in zip(cids, got):
-                    w1 = exp[c][0] if c in exp else (-1000 if dw2 is None else dw2[1])
-                    adv = w1 * 0.001 * FS
-                    if not (close(g[1], adv) and close(g[2][5], y) and g[2][4] == 100):
-                        f.append(("widths-document:W2", "W2 %r DW2 %r: CID %d adv %r at y %r, expected adv %r at y %r"
-                                  % (arr, dw2, c, g[1], g[2][5], adv, y), {}))
-                        break
-                    # position vector: observed through the glyph box (x0 = origin - vx * fs / 1000)
-                    if c in exp and not close(g[3][0], 100 - exp[c][1][0] * 0.001 * FS):
-                        f.append(("widths-document:W2-vx", "W2 %r: CID %d box x0 %r, expected %r" % (
-                            arr, c, g[3][0], 100 - exp[c][1][0] * 0.001 * FS), {}))
-                        break
-                    y += adv
+        if r["wf"]:
+            # the Python reading of the grammar must agree with the model's table (two references) ...
+            if ref_w(arr, r["mode"]) != exp:
+                raise MachineryError("W reference disagreement on %r: %r vs model %r" % (arr, ref_w(arr, r["mode"]), exp))
+            # ... and carries the table over to REAL-valued widths (x.5 wherever the array holds a width / vector entry)
+            arr_r = realify(arr, r["mode"])
+            exp_r = ref_w(arr_r, r["mode"])
+            try:
+                real_r = dict(get_widths(arr_r)) if r["mode"] == "W" else {c: (w, tuple(d)) for c, (w, d) in get_widths2(arr_r).items()}
+                if real_r != exp_r:
+                    f.append(("widths-table:%s:real" % r["mode"], "%s array %r: table %r, expected %r" % (r["mode"], arr_r, real_r, exp_r), {}))
+            except Exception as e:  # noqa: BLE001
+                f.append(("widths-total:%s" % type(e).__name__, "get_widths on %r raised %r" % (arr_r, e), {}))
+            if with_doc:
+                if r["mode"] == "W":
+                    f += widths_doc(arr, exp, "W", 500 if (len(arr) % 2) else None)
+                    f += widths_doc(arr_r, exp_r, "W", 499.5)
+                else:
+                    f += widths_doc(arr, exp, "W2", [800, -900] if (len(arr) % 2) else None)
+                    f += widths_doc(arr_r, exp_r, "W2", [880.5, -999.5])
         out.append((f, drift))
     return out
 
@@ -559,13 +619,16 @@ SETUPS = {
     "V-default": dict(enc="Identity-V"),
     "V-W2": dict(enc="Identity-V", w2=[1, [-500, 300, 700], 3, 3, -750, 500, 880]),
     "V-DW2": dict(enc="Identity-V", w2=[1, 2, -800, 400, 900], dw2=[800, -900]),
+    # real-valued metrics: the model writes these setups in halves (den = 2)
+    "H-real": dict(enc="Identity-H", w=[1, [250.5], 2, 2, 600.5], dw=499.5),
+    "V-real": dict(enc="Identity-V", w2=[1, [-500.5, 300.5, 700.5], 3, 3, -750.5, 500.5, 880.5], dw2=[880.5, -999.5]),
 }
 
 
 def direction_a_placement(ck, fut):
     from ..realise import fontpdf as fp
     res, emit = fut
-    ck.add_tlc(res, "Placement: 5 metric setups x CID strings <= 4")
+    ck.add_tlc(res, "Placement: 7 metric setups (2 real-valued) x CID strings <= 4")
     if not res.ok:
         return model_violation(ck, res, "Placement")
     require_coverage(res, ["AShow"])
@@ -592,8 +655,9 @@ def direction_a_placement(ck, fut):
             for g, m in zip(got, r["g"]):
                 if not ok:
                     break
-                at = m["at"] * 0.001 * FS
-                adv = m["adv"] * 0.001 * FS
+                den = 2.0 if sid.endswith("-real") else 1.0
+                at = m["at"] / den * 0.001 * FS
+                adv = m["adv"] / den * 0.001 * FS
                 if vertical:
                     ok = close(g[1], adv) and close(g[2][5], y0 + at) and close(g[2][4], 100)
                 else:
@@ -613,7 +677,8 @@ def direction_a_placement(ck, fut):
                 d = fobj.char_disp(c)
                 if vertical:
                     vx, vy = m["disp"]
-                    exp = (None if vx == -1 else vx, vy)
+                    den = 2.0 if sid.endswith("-real") else 1
+                    exp = (None if vx == -1 else vx / den, vy / den)
                     if (tuple(d) if isinstance(d, tuple) else (d,)) != exp:
                         vxdrift += 1
     ck.replayed += n
